@@ -153,7 +153,49 @@ def library_pass(switches=frozenset()):
     return stats
 
 
+def enumerate_contexts(part, nparts, switches=frozenset()):
+    """Every statement template of the grammar in every block context (the table of C07 / C10), here with operands that need temporaries
+    (INT(A), STR$(A)): every RUN the tool emits for them matches the declared interface (complete enumeration)."""
+    from vf.props import c07, c10
+
+    stats = Stats()
+    stmts = [t.format(n="INT(A)", s="STR$(A)") for t in c10.NUM_SLOTS] + [t.format(n="INT(A)", s="STR$(A)") for t in c10.STR_SLOTS] + c07.EXTRA_STATEMENTS
+    k = 0
+    for st_ in stmts:
+        if st_.startswith(("INPUT ZQ", "READ ZQ", "ZN=VARPTR")) and "no_convertible_in_read_input_subscripts" in switches:
+            stats.excluded["no_convertible_in_read_input_subscripts"] += 1
+            continue
+        if st_.startswith("HPRINT(1,1),") is False and st_.startswith("HPRINT") and "hprint_string_only" in switches:
+            pass
+        for cname, ctx in c07.CONTEXTS:
+            ends_line = st_.startswith(("REM", "'")) or "DATA" in st_
+            has_if = st_.startswith("IF") or "NEXT" in st_ or "FOR " in st_
+            if cname != "plain" and (ends_line and cname in ("after_colon", "if_then", "elseif_arm", "for_body")):
+                continue
+            if has_if and cname not in ("plain", "after_colon"):
+                continue
+            if has_if and st_.startswith("IF") and "ELSE" in st_ and "no_convertible_in_ifelse_cond" in switches:
+                continue
+            k += 1
+            if k % nparts != part:
+                continue
+            case = {"source": ctx.format(s=st_), "options": {"initialize_vars": True}}
+            try:
+                check_case(case)
+            except Violation as v:
+                stats.fail(v.detail, case)
+                return stats
+            stats.evaluations += 1
+            stats.classes["context_" + cname] += 1
+            stats.classes["status_" + case.get("_status", "?")] += 1
+            if case.get("_status") == "ok":
+                stats.nontrivial.add(core.digest(case["source"]))
+    return stats
+
+
 def plan(tier, seed, switches):
     if tier == "quick":
-        return [("campaign", [dict(seed=seed * 100 + k, n=350, switches=switches) for k in range(4)]), ("library_pass", [dict(switches=switches)])]
-    return [("campaign", [dict(seed=seed * 1000 + k, n=3000, switches=switches) for k in range(15)]), ("library_pass", [dict(switches=switches)])]
+        return [("campaign", [dict(seed=seed * 100 + k, n=350, switches=switches) for k in range(4)]), ("library_pass", [dict(switches=switches)]),
+                ("enumerate_contexts", [dict(part=k, nparts=6, switches=switches) for k in range(6)])]
+    return [("campaign", [dict(seed=seed * 1000 + k, n=3000, switches=switches) for k in range(15)]), ("library_pass", [dict(switches=switches)]),
+            ("enumerate_contexts", [dict(part=k, nparts=6, switches=switches) for k in range(6)])]
